@@ -228,7 +228,7 @@ impl Property for C12 {
          mirrored in the same order), compared after every operation with the shared values (get / collected count, sum, buckets, \
          also of detached children) and with every local's pending count/sum. Non-trivial: >=2 local handles with interleaved \
          updates and at least one of {clone with pending data, drop with pending data, flush after shared reset, local \
-         remove_label_values with pending data}. Thorough tier: one further stage accumulates 2^32+5 observations in a single LocalHistogram before one flush. Distinct = decoded choices."
+         remove_label_values with pending data}; for vectors also Clone::clone_from between handles cloned out of a local vector for two different children. Thorough tier: one further stage accumulates 2^32+5 observations in a single LocalHistogram before one flush. Distinct = decoded choices."
     }
     fn assumptions(&self) -> Vec<&'static str> {
         vec![
@@ -409,6 +409,51 @@ impl Property for C12 {
                         }
                         log.push(format!("L{}[{:?}].reset", li, t));
                     }
+                }
+                // ---- vectors, a fifth of the clone operations: two handles cloned out of a fresh local vector (for the tuple of this step and
+                // for another one), one gets a pending amount and is then overwritten with Clone::clone_from of the other: what the
+                // overwritten handle held goes where dropping it would send it (a local histogram flushes into ITS child, a local counter
+                // forgets), and the handle then feeds the other's child
+                10 if kind.is_vec() && src.chance(50) => {
+                    let t2 = src.pick(TUPLES).to_string();
+                    let (c1, c2) = (w.child_for(&t), w.child_for(&t2));
+                    match &w.shared {
+                        Shared::HV(v) => {
+                            let mut lv = v.local();
+                            let mut a = lv.with_label_values(&[&t]).clone();
+                            let b = lv.with_label_values(&[&t2]).clone();
+                            a.observe(1.0);
+                            a.clone_from(&b);
+                            a.observe(2.0);
+                            a.flush();
+                        }
+                        Shared::CV(v) => {
+                            let mut lv = v.local();
+                            let mut a = lv.with_label_values(&[&t]).clone();
+                            let b = lv.with_label_values(&[&t2]).clone();
+                            a.inc_by(1.0);
+                            a.clone_from(&b);
+                            a.inc_by(2.0);
+                            a.flush();
+                        }
+                        Shared::ICV(v) => {
+                            let mut lv = v.local();
+                            let mut a = lv.with_label_values(&[&t]).clone();
+                            let b = lv.with_label_values(&[&t2]).clone();
+                            a.inc_by(1);
+                            a.clone_from(&b);
+                            a.inc_by(2);
+                            a.flush();
+                        }
+                        _ => unreachable!(),
+                    }
+                    if kind.is_hist() {
+                        w.deliver_direct(c1, 1.0);
+                    }
+                    w.deliver_direct(c2, 2.0);
+                    interesting = true;
+                    rep.class("clone_from-between-handles-of-two-children");
+                    log.push(format!("a=L[{:?}] b=L[{:?}] a+=1 a.clone_from(b) a+=2 a.flush", t, t2));
                 }
                 // ---- clone: the clone starts empty and is independent
                 10 => {
